@@ -120,18 +120,18 @@ def _pcovr(space, reg):
     return dict(data=data, est=est, fit=fit, use=use, fit_transform=lambda e, a: e.fit_transform(a["X"], a["Y"]) if hasattr(e, "fit_transform") and reg != "precomputed" else None, ft_ref=lambda e, a: e.transform(a["X"]))
 
 
-def _kpcovr(kernel):
+def _kpcovr(kernel, center=False):
     def data(rng, k):
         X, Y = _xy(rng, k, p=2, centred=True)
         if kernel == "precomputed":
-            return {"X": X @ X.T, "Y": Y}
+            return {"X": (X + 1.0) @ (X + 1.0).T, "Y": Y}
         return {"X": X, "Y": Y}
 
     def est(a):
         from skmatter.decomposition import KernelPCovR
 
         if kernel == "precomputed":
-            return KernelPCovR(mixing=0.5, n_components=2, kernel="precomputed")
+            return KernelPCovR(mixing=0.5, n_components=2, kernel="precomputed", center=center)
         return KernelPCovR(mixing=0.5, n_components=2, kernel="rbf", gamma=0.2, center=True, fit_inverse_transform=True)
 
     def use(e, a):
@@ -321,6 +321,7 @@ SCENARIOS = {
     "PCovR(feature, precomputed W)": _pcovr("feature", "precomputed"),
     "KernelPCovR(rbf, center)": _kpcovr("rbf"),
     "KernelPCovR(precomputed)": _kpcovr("precomputed"),
+    "KernelPCovR(precomputed, center)": _kpcovr("precomputed", center=True),
     # --- preprocessing
     "StandardFlexibleScaler(copy=False)": _sfs(False, False),
     "StandardFlexibleScaler(copy=True, column_wise)": _sfs(True, True),
@@ -558,6 +559,11 @@ def run(case, j):
             eh = sc["est"](first)
             first_fit = lambda: sc["fit"](eh, first)  # noqa: E731
         first_fit()
+        try:
+            # use the estimator between the fits (populates lazily cached quantities)
+            sc["use"](eh, alt if sc.get("same_ctor_data") else first)
+        except Exception:
+            pass
         for k_, v_ in _hyper(sc["est"](second)).items():
             # the caller re-configures size-dependent hyper-parameters for the new data, as a user would
             if k_ in ("dist_cutoff_sq", "cv"):
